@@ -60,7 +60,7 @@ def cases(draw, rl):
                          "verbose": draw(st.booleans()), "folder": draw(st.booleans()),
                          "seeds": "spec" if v == 0 and draw(st.booleans()) else
                          draw(st.lists(st.integers(0, 2**31 - 1), min_size=3, max_size=3))})
-    return {"cfg": cfg, "n": n, "variants": variants}
+    return {"cfg": cfg, "n": n, "variants": variants, "fresh_twin": (not rl) and draw(st.integers(0, 5)) == 0}
 
 
 def run_variant(cfg, n, var, folder):
@@ -110,6 +110,28 @@ def check_pure(ctx: Ctx, case):
             ctx.fail("C01/variants-differ", f"variants fail differently: {raised}", sub, case)
             return
         raise Inconclusive(f"every variant raises {raised[0][1]} (degenerate configuration, not a purity matter)")
+    if results and not rl and case.get("fresh_twin"):
+        # the same configuration in a fresh interpreter: the result must not depend on what this process did before
+        import json as _json
+        import subprocess
+        import sys as _sys
+        from harness import subrun
+        vi0 = results[0][0]
+        payload = _json.dumps({"cfg": cfg, "n": n, "variant": {"seeds": variants[vi0]["seeds"]}})
+        pr = subprocess.run([_sys.executable, "-m", "harness.subrun"], input=payload, capture_output=True, text=True, timeout=600)
+        line = [l for l in pr.stdout.splitlines() if l.startswith("DIGEST ")]
+        if pr.returncode == 0 and line:
+            class _C:  # digest() reads attributes
+                pass
+            c = _C()
+            for k, v in results[0][1].items():
+                setattr(c, k, v)
+            if subrun.digest(c, results[0][2]) != line[0].split()[1]:
+                ctx.fail("C01/depends-on-process-history", f"variant {vi0} run in this (long-lived) process and the same "
+                         "configuration run in a fresh interpreter produce different histories: the result depends on state "
+                         "left behind by earlier, unrelated calibrations", sub, case)
+                return
+            ctx.classes[f"{sub}:fresh-interpreter-twins"] += 1
     if len(results) < 2:
         return
     v0, h0, r0 = results[0]
